@@ -14,39 +14,47 @@ def inst(**kw):
 
 ADV = '{"normal", "fail", "wrongtype", "unknownid", "dup", "wrongcount"}'
 
+# Sizes measured with 12 workers on an idle 16-core box are in the comments (distinct states / seconds).  The time budget of an
+# instance is soft (tools/checklib.py run_mc): an instance that does not finish reports how far it got, and the evidence says so.
 INSTANCES = {
- "C01": {"quick": [inst(Which='{"C01", "C02"}', SubmitSet="Sub_All", AckHows=ADV, AckWhich='{"oldest", "newest"}', Others='{"Reset"}', CfgSet="Cfg_Versions")],
-         "thorough": [inst(Which='{"C01", "C02"}', SubmitSet="Sub_All", AckHows=ADV, AckWhich='{"oldest", "newest"}', Others='{"Reset", "Disconnect"}', CfgSet="Cfg_Policies", MaxOps=3)]},
- "C02": {"quick": [inst(Which='{"C02"}', SubmitSet="Sub_All", CfgSet="Cfg_Versions")],
+ "C01": {"quick": [inst(Which='{"C01", "C02"}', SubmitSet="Sub_All", AckHows='{"normal", "fail"}', AckWhich='{"oldest", "newest"}', Others='{"Reset"}', CfgSet="Cfg_Versions"),     # 165k / 20 s
+                   inst(Which='{"C01"}', SubmitSet="Sub_Q12Big", AckHows=ADV, AckWhich='{"oldest", "newest"}', Others='{"Reset"}', MaxConns=1)],
+         "thorough": [inst(Which='{"C01", "C02"}', SubmitSet="Sub_All", AckHows=ADV, AckWhich='{"oldest", "newest"}', Others='{"Reset", "Disconnect"}', CfgSet="Cfg_Policies", MaxOps=2),
+                      inst(Which='{"C01"}', SubmitSet="Sub_Acked", AckHows='{"normal", "fail"}', AckWhich='{"oldest", "newest"}', Others='{"Reset"}', MaxOps=3)]},
+ "C02": {"quick": [inst(Which='{"C02"}', SubmitSet="Sub_All", CfgSet="Cfg_Versions")],                                                                                                   # 87k / 19 s
          "thorough": [inst(Which='{"C02"}', SubmitSet="Sub_All", CfgSet="Cfg_Versions", MaxOps=3)]},
- "C04": {"quick": [inst(Which='{"C04"}', SubmitSet="Sub_Q12Big", MaxConns=3, Caps="{1, 3}", InPubSet="In_Q1", MaxIn=1)],
+ "C04": {"quick": [inst(Which='{"C04"}', SubmitSet="Sub_Q12Big", MaxConns=3, Caps="{1, 3}", InPubSet="In_Q1", MaxIn=1)],                                                             # 154k / 34 s
          "thorough": [inst(Which='{"C04"}', SubmitSet="Sub_Q12Big", MaxConns=3, CfgSet="Cfg_Policies", InPubSet="In_Q1", MaxIn=1, AckHows='{"normal", "fail", "dup"}')]},
- "C05": {"quick": [inst(Which='{"C05"}', SubmitSet="Sub_Q1", InPubSet="In_Basic", MaxIn=3, MaxOps=1, Others='{"InPubrel", "InPubrelUnknown"}')],
+ "C05": {"quick": [inst(Which='{"C05"}', SubmitSet="Sub_Q1", InPubSet="In_Basic", MaxIn=3, MaxOps=1, Others='{"InPubrel", "InPubrelUnknown"}')],                                      # 188k / 31 s
          "thorough": [inst(Which='{"C05"}', SubmitSet="Sub_Q1", InPubSet="In_Basic", MaxIn=4, MaxOps=1, MaxConns=3, Others='{"InPubrel", "InPubrelUnknown"}')]},
- "C06": {"quick": [inst(Which='{"C06"}', SubmitSet="Sub_Acked", PidMax=2, MaxOps=3, AckHows='{"normal", "fail", "dup", "unknownid"}')],
-         "thorough": [inst(Which='{"C06"}', SubmitSet="Sub_Acked", PidMax=2, MaxOps=3, MaxConns=3, AckHows=ADV, CfgSet="Cfg_Policies")]},
- "C07": {"quick": [inst(Which='{"C07"}', CfgSet="Cfg_RejoinBig", ConnackSet="Ck_Handshake", EarlyConnack="TRUE", MaxConns=3, MaxOps=1, Others='{"Disconnect", "Pingresp", "Reset"}', Horizon=2, Deadline=2, AckHows='{"normal", "dup"}')],
-         "thorough": [inst(Which='{"C07"}', CfgSet="Cfg_RejoinBig", ConnackSet="Ck_Handshake", EarlyConnack="TRUE", MaxConns=4, MaxOps=2, Others='{"Disconnect", "Pingresp", "Reset", "Garbage", "Auth", "ServerDisconnect"}', Horizon=3, Deadline=2, AckHows='{"normal", "dup"}')]},
- "C08": {"quick": [inst(Which='{"C08"}', CfgSet="Cfg_Wake", SubmitSet="Sub_Big", ConnackSet="Ck_Rm1Ka", Faithful="TRUE", Horizon=4, Deadline=3, Others='{"Pingresp", "Disconnect"}', Caps="{1, 2}")],
-         "thorough": [inst(Which='{"C08"}', CfgSet="Cfg_Wake", SubmitSet="Sub_Big", ConnackSet="Ck_Rm1Ka", Faithful="TRUE", Horizon=6, Deadline=3, MaxOps=3, Others='{"Pingresp", "Disconnect"}', Caps="{1, 2}")]},
- "C09": {"quick": [inst(Which='{"C09"}', CfgSet="Cfg_Drain", ConnackSet="Ck_Rm", MaxOps=3, SubmitSet="Sub_Acked")],
+ "C06": {"quick": [inst(Which='{"C06"}', SubmitSet="Sub_Acked", PidMax=2, MaxOps=3, AckHows='{"normal", "fail"}'),                                                                     # 40k / 20 s
+                   inst(Which='{"C06"}', SubmitSet="Sub_Acked", PidMax=2, MaxOps=2, AckHows='{"normal", "dup", "unknownid"}', Caps="{3}")],
+         "thorough": [inst(Which='{"C06"}', SubmitSet="Sub_Acked", PidMax=2, MaxOps=3, MaxConns=3, AckHows='{"normal", "fail"}', CfgSet="Cfg_Policies"),
+                      inst(Which='{"C06"}', SubmitSet="Sub_Acked", PidMax=2, MaxOps=3, AckHows=ADV)]},
+ "C07": {"quick": [inst(Which='{"C07"}', CfgSet="Cfg_RejoinBig", ConnackSet="Ck_Handshake", EarlyConnack="TRUE", MaxConns=2, MaxOps=0, Others='{"Disconnect", "Reset"}', Horizon=2, Deadline=2),
+                   inst(Which='{"C07"}', CfgSet="Cfg_Rejoin", ConnackSet="Ck_Handshake", EarlyConnack="FALSE", MaxConns=3, MaxOps=0, Others='{}', Caps="{3}")],                     # 730 / 5 s
+         "thorough": [inst(Which='{"C07"}', CfgSet="Cfg_RejoinBig", ConnackSet="Ck_Handshake", EarlyConnack="TRUE", MaxConns=3, MaxOps=1, Others='{"Disconnect", "Pingresp", "Reset", "Garbage", "Auth", "ServerDisconnect"}', Horizon=3, Deadline=2, AckHows='{"normal", "dup"}')]},
+ "C08": {"quick": [inst(Which='{"C08"}', CfgSet="Cfg_Wake", SubmitSet="Sub_Big2", ConnackSet="Ck_Rm1Ka", Faithful="TRUE", Horizon=3, Deadline=3, Others='{"Pingresp"}', Caps="{1, 2}", MaxConns=1)],   # 111k / 24 s
+         "thorough": [inst(Which='{"C08"}', CfgSet="Cfg_Wake", SubmitSet="Sub_Big", ConnackSet="Ck_Rm1Ka", Faithful="TRUE", Horizon=4, Deadline=3, Others='{"Pingresp", "Disconnect"}', Caps="{1, 2}")]},
+ "C09": {"quick": [inst(Which='{"C09"}', CfgSet="Cfg_Drain", ConnackSet="Ck_Rm", MaxOps=3, SubmitSet="Sub_Acked")],                                                                   # 417k / 50 s
          "thorough": [inst(Which='{"C09"}', CfgSet="Cfg_Drain", ConnackSet="Ck_Rm", MaxOps=3, MaxConns=3, SubmitSet="Sub_Acked", AckWhich='{"oldest", "newest"}')]},
- "C10": {"quick": [inst(Which='{"C10"}', SubmitSet="Sub_All", MaxOps=3, ConnackSet="Ck_Rm1Plain")],
+ "C10": {"quick": [inst(Which='{"C10"}', SubmitSet="Sub_Mix3", MaxOps=3, ConnackSet="Ck_Rm1Plain")],
          "thorough": [inst(Which='{"C10"}', SubmitSet="Sub_All", MaxOps=3, MaxConns=3, ConnackSet="Ck_Rm1Plain", CfgSet="Cfg_Policies")]},
- "C11": {"quick": [inst(Which='{"C11"}', SubmitSet="Sub_Timeouts", AckHows=ADV, AckWhich='{"oldest", "newest"}', InPubSet="In_Basic", MaxIn=1, EarlyConnack="TRUE", ConnackSet="Ck_Fail",
-                        Others='{"Pingresp", "ServerDisconnect", "Auth", "Garbage", "InPubrel", "InPubrelUnknown", "Disconnect", "Reset"}', Horizon=3, CfgSet="Cfg_Ka1")],
+ "C11": {"quick": [inst(Which='{"C11"}', SubmitSet="Sub_Timeouts2", AckHows=ADV, AckWhich='{"oldest"}', InPubSet="In_Q2only", MaxIn=1, EarlyConnack="TRUE", ConnackSet="Ck_Fail",
+                        Others='{"Pingresp", "ServerDisconnect", "Auth", "Garbage", "InPubrel", "InPubrelUnknown", "Disconnect", "Reset"}', Horizon=2, CfgSet="Cfg_Ka1", KnownRules='{"late-ack-after-timeout"}')],
          "thorough": [inst(Which='{"C11"}', SubmitSet="Sub_Timeouts", AckHows=ADV, AckWhich='{"oldest", "newest"}', InPubSet="In_Basic", MaxIn=2, EarlyConnack="TRUE", ConnackSet="Ck_Fail",
-                           Others='{"Pingresp", "ServerDisconnect", "Auth", "Garbage", "InPubrel", "InPubrelUnknown", "Disconnect", "Reset"}', Horizon=4, CfgSet="Cfg_Ka1", MaxConns=3)]},
- "C14": {"quick": [inst(Which='{"C14"}', CfgSet="Cfg_KeepAlive", ConnackSet="Ck_Ka", Faithful="TRUE", Horizon=9, Deadline=20, MaxOps=1, SubmitSet="Sub_Q1", Others='{"Pingresp"}', MaxConns=1)],
+                           Others='{"Pingresp", "ServerDisconnect", "Auth", "Garbage", "InPubrel", "InPubrelUnknown", "Disconnect", "Reset"}', Horizon=3, CfgSet="Cfg_Ka1", KnownRules='{"late-ack-after-timeout"}')]},
+ "C14": {"quick": [inst(Which='{"C14"}', CfgSet="Cfg_KeepAlive", ConnackSet="Ck_Ka", Faithful="TRUE", Horizon=9, Deadline=20, MaxOps=1, SubmitSet="Sub_Q1", Others='{"Pingresp"}', MaxConns=1)],    # 114k / 60 s
          "thorough": [inst(Which='{"C14"}', CfgSet="Cfg_KeepAlive", ConnackSet="Ck_Ka", Faithful="TRUE", Horizon=12, Deadline=30, MaxOps=2, SubmitSet="Sub_Acked", Others='{"Pingresp"}', MaxConns=2)]},
- "C15": {"quick": [inst(Which='{"C15"}', CfgSet="Cfg_Policies", SubmitSet="Sub_All")],
-         "thorough": [inst(Which='{"C15"}', CfgSet="Cfg_Policies", SubmitSet="Sub_All", MaxOps=3, MaxConns=3)]},
- "C16": {"quick": [inst(Which='{"C16"}', SubmitSet="Sub_Validation", ConnackSet="Ck_Caps", MaxConns=1)],
-         "thorough": [inst(Which='{"C16"}', SubmitSet="Sub_Validation", ConnackSet="Ck_Caps", MaxConns=2, MaxOps=3)]},
- "C17": {"quick": [inst(Which='{"C17"}', CfgSet="Cfg_Alias", SubmitSet="Sub_Alias", ConnackSet="Ck_Alias", InPubSet="In_Alias", MaxIn=2, MaxOps=3, MaxConns=2)],
-         "thorough": [inst(Which='{"C17"}', CfgSet="Cfg_Alias", SubmitSet="Sub_Alias", ConnackSet="Ck_Alias", InPubSet="In_Alias", MaxIn=3, MaxOps=3, MaxConns=2)]},
- "C18": {"quick": [inst(Which='{"C18"}', CfgSet="Cfg_PoliciesRetries", SubmitSet="Sub_Timeouts", Horizon=4, AckHows='{"normal", "fail"}')],
-         "thorough": [inst(Which='{"C18"}', CfgSet="Cfg_PoliciesRetries", SubmitSet="Sub_Timeouts", Horizon=5, MaxConns=3, MaxOps=3, AckHows='{"normal", "fail"}')]},
+ "C15": {"quick": [inst(Which='{"C15"}', CfgSet="Cfg_Policies4", SubmitSet="Sub_All")],
+         "thorough": [inst(Which='{"C15"}', CfgSet="Cfg_Policies", SubmitSet="Sub_All", MaxOps=3, MaxConns=2)]},
+ "C16": {"quick": [inst(Which='{"C16"}', SubmitSet="Sub_Validation", ConnackSet="Ck_Caps", MaxConns=1, KnownRules='{"timing"}')],
+         "thorough": [inst(Which='{"C16"}', SubmitSet="Sub_Validation", ConnackSet="Ck_Caps", MaxConns=2, MaxOps=3, KnownRules='{"timing"}')]},
+ "C17": {"quick": [inst(Which='{"C17"}', CfgSet="Cfg_Alias", SubmitSet="Sub_Alias", ConnackSet="Ck_Alias", MaxOps=3, MaxConns=2, Caps="{3}"),
+                   inst(Which='{"C17"}', CfgSet="Cfg_AliasIn", InPubSet="In_Alias", MaxIn=3, MaxOps=0, MaxConns=2, Caps="{3}", ConnackSet="Ck_Plain")],
+         "thorough": [inst(Which='{"C17"}', CfgSet="Cfg_Alias", SubmitSet="Sub_Alias", ConnackSet="Ck_Alias", InPubSet="In_Alias", MaxIn=2, MaxOps=3, MaxConns=2)]},
+ "C18": {"quick": [inst(Which='{"C18"}', CfgSet="Cfg_Retries", SubmitSet="Sub_Timeouts2", Horizon=3, AckHows='{"normal", "fail"}')],
+         "thorough": [inst(Which='{"C18"}', CfgSet="Cfg_PoliciesRetries", SubmitSet="Sub_Timeouts", Horizon=4, MaxConns=3, AckHows='{"normal", "fail"}')]},
 }
 
 SUBST = {"CfgSet", "SubmitSet", "ConnackSet", "InPubSet"}
